@@ -383,6 +383,7 @@ func c04Run(w *kernel.Worker, j *c04Job, rep *kernel.Report) (*Fail, error) {
 		span   int64
 		byG    bool
 		single string
+		align  int64 // bin ... aligntime= (0: none)
 	}
 	var qs []Q
 	var ds2 []qd
@@ -417,6 +418,21 @@ func c04Run(w *kernel.Worker, j *c04Job, rep *kernel.Report) (*Fail, error) {
 			}
 			qs = append(qs, mkq(t))
 			ds2 = append(ds2, qd{kind: "timechart", col: "v", span: span.ms, byG: byG})
+		}
+	}
+	// the bin command over the timestamp, without and with an alignment instant later than some events / earlier than all
+	for _, span := range []struct {
+		txt string
+		ms  int64
+	}{{"1s", 1000}, {"1m", 60000}, {"1h", 3600000}} {
+		for _, al := range []int64{0, T0 + 250, T0 - 3600000 - 123} {
+			t := "* | bin span=" + span.txt
+			if al != 0 {
+				t += fmt.Sprintf(" aligntime=%d", al)
+			}
+			t += " timestamp | stats count, sum(v) by timestamp"
+			qs = append(qs, mkq(t))
+			ds2 = append(ds2, qd{kind: "timechart", col: "v", span: span.ms, align: al})
 		}
 	}
 	rs, err := runQueries(w, qs)
@@ -519,6 +535,9 @@ func c04Run(w *kernel.Worker, j *c04Job, rep *kernel.Report) (*Fail, error) {
 				fs.Add("C04/timechart-shape", ctx+": bucket key "+fmt.Sprint(b.G))
 				continue
 			}
+			if d.align != 0 && ((K-d.align)%d.span+d.span)%d.span != 0 {
+				fs.Add("C04/bin-not-aligned", ctx+fmt.Sprintf(": bucket %d does not start a whole number of spans (%d ms) from aligntime %d", K, d.span, d.align))
+			}
 			if seenB[K] {
 				fs.Add("C04/timechart-bucket-twice", ctx+fmt.Sprintf(": bucket %d twice", K))
 			}
@@ -580,7 +599,7 @@ func c04Run(w *kernel.Worker, j *c04Job, rep *kernel.Report) (*Fail, error) {
 func C04() int {
 	rep := kernel.NewReport("C04", "exploration")
 	rep.Rule = "14 measures × 4 target columns (dense, sparse, numeric-string, mixed) × 5 group-bys (none, dense, sparse, mixed-type, two keys) " +
-		"in combined and single-measure form, timechart span ∈ {1s,1m,1h} with and without by, over datasets whose timestamps sit on / 1 ms " +
+		"in combined and single-measure form, timechart span ∈ {1s,1m,1h} with and without by, bin span ∈ {1s,1m,1h} × aligntime ∈ {none, after some events, before all} on the timestamp followed by stats by timestamp, over datasets whose timestamps sit on / 1 ms " +
 		"before / after bucket edges × every segmentation (all placements of flush / rotate between events for 4-event datasets). " +
 		"non-trivial = (dataset, layout, query) with ≥2 groups or ≥1 rotated segment"
 	rep.Assume = []string{"numeric measures count numbers and numeric strings; columns holding other strings are only checked for count and absence of failure",
